@@ -67,7 +67,8 @@ CONSTANTS
   MMulFirst,                 \* multiplier applied once more than there were refusals
   MTestPrev,                 \* convergence test on the error of the previous iteration
   MReturnUnconverged,        \* return instead of raise when the iteration limit is hit
-  MWarmupRule                \* window rule applied during warm-up
+  MWarmupRule,               \* window rule applied during warm-up
+  MEntryPerIteration         \* one window entry per call of adaptive_euler_step (per screening iteration) instead of per solve step
 
 FT == 24
 MaxEs == {m - 4 : m \in MaxE4s}
@@ -104,15 +105,17 @@ VARIABLES
   adt,                       \* dt of the attempt that was answered
   tent,                      \* solver.tentative_dt
   dpsi,                      \* solver.d_psi_sq_vals (the last Window+1 entries)
+  dstep,                     \* ghost: max|d|psi|^2| of every completed SOLVE STEP (last answer of the step against the
+                             \* step's old |psi|^2), last Window+1 entries; what the documented rule averages
   delta,                     \* max|d|psi|^2| of the last answer
   Aind, vel, knew,           \* Polyak iterate, velocity, last kernel output
   linkA,                     \* induced potential the operators were last refreshed with
   hist                       \* environment choices so far (the replay script)
 
 cvars == <<cfg, pc, step, s, retries, nref, why, conv, prevconv, kcalls>>
-nvars == <<dt, adt, tent, dpsi, delta, Aind, vel, knew, linkA, hist>>
+nvars == <<dt, adt, tent, dpsi, dstep, delta, Aind, vel, knew, linkA, hist>>
 vars == <<cvars, nvars>>
-View == <<cfg, pc, step, s, retries, nref, why, conv, prevconv, kcalls, dt, adt, tent, dpsi, delta, Aind, vel, knew, linkA>>
+View == <<cfg, pc, step, s, retries, nref, why, conv, prevconv, kcalls, dt, adt, tent, dpsi, dstep, delta, Aind, vel, knew, linkA>>
 
 Adaptive == cfg.adaptive
 Screening == cfg.screening
@@ -144,7 +147,7 @@ InitWith(c) ==
   /\ cfg = c /\ pc = "begin" /\ step = 0 /\ s = 0 /\ retries = 0 /\ nref = 0 /\ why = "none"
   /\ conv = FALSE /\ prevconv = FALSE /\ kcalls = 0
   /\ dt = 2^(FT - c.inite) /\ adt = 2^(FT - c.inite) /\ tent = 2^(FT - c.inite)
-  /\ dpsi = <<>> /\ delta = 0 /\ Aind = Zero /\ vel = Zero /\ knew = Zero /\ linkA = Zero /\ hist = <<>>
+  /\ dpsi = <<>> /\ dstep = <<>> /\ delta = 0 /\ Aind = Zero /\ vel = Zero /\ knew = Zero /\ linkA = Zero /\ hist = <<>>
 Init == \E c \in CfgSpace : InitWith(c)
 
 -----------------------------------------------------------------------------
@@ -153,7 +156,7 @@ BeginCtl == /\ pc = "begin" /\ step < MaxSteps
             /\ pc' = "test" /\ s' = 0 /\ conv' = FALSE /\ prevconv' = FALSE /\ retries' = 0
             /\ UNCHANGED <<cfg, step, nref, why, kcalls>>
 BeginNum == /\ vel' = Zero                       \* velocity = [0.0]; A_induced_vals = [A_induced]
-            /\ UNCHANGED <<dt, adt, tent, dpsi, delta, Aind, knew, linkA, hist>>
+            /\ UNCHANGED <<dt, adt, tent, dpsi, dstep, delta, Aind, knew, linkA, hist>>
 Begin == BeginCtl /\ BeginNum
 
 (* Test: top of `for screening_iteration in itertools.count()` *)
@@ -168,12 +171,12 @@ TestCtl == /\ pc = "test"
            /\ retries' = 0
            /\ UNCHANGED <<cfg, step, s, nref, conv, prevconv, kcalls>>
 TestNum == /\ dt' = IF GoesOn /\ s = 0 THEN tent ELSE dt     \* `if screening_iteration == 0: dt = self.tentative_dt`
-           /\ UNCHANGED <<adt, tent, dpsi, delta, Aind, vel, knew, linkA, hist>>
+           /\ UNCHANGED <<adt, tent, dpsi, dstep, delta, Aind, vel, knew, linkA, hist>>
 Test == TestCtl /\ TestNum
 
 (* Links *)
 LinksCtl == /\ pc = "links" /\ pc' = "euler" /\ UNCHANGED <<cfg, step, s, retries, nref, why, conv, prevconv, kcalls>>
-LinksNum == /\ linkA' = Aind /\ UNCHANGED <<dt, adt, tent, dpsi, delta, Aind, vel, knew, hist>>
+LinksNum == /\ linkA' = Aind /\ UNCHANGED <<dt, adt, tent, dpsi, dstep, delta, Aind, vel, knew, hist>>
 Links == LinksCtl /\ LinksNum
 
 (* Refuse: solve_for_psi_squared returned None *)
@@ -184,7 +187,7 @@ RefuseCtl == /\ pc = "euler" /\ nref < MaxRefusals /\ nref' = nref + 1
              /\ UNCHANGED <<cfg, step, s, conv, prevconv, kcalls>>
 RefuseNum == /\ dt' = IF Raising THEN dt ELSE ExactDiv(dt, MulDen)
              /\ hist' = Append(hist, [t |-> "R", d |-> 0, k |-> Zero])
-             /\ UNCHANGED <<adt, tent, dpsi, delta, Aind, vel, knew, linkA>>
+             /\ UNCHANGED <<adt, tent, dpsi, dstep, delta, Aind, vel, knew, linkA>>
 Refuse == RefuseCtl /\ RefuseNum
 
 (* Answer: solve_for_psi_squared returned a state *)
@@ -193,16 +196,17 @@ Trim(sq) == IF Len(sq) > Window + 1 THEN LastN(sq, Window + 1) ELSE sq
 WinSlice(sq) == LastN(sq, Min(SliceLen, Len(sq)))         \* python: d_psi_sq_vals[-n:]
 RuleApplies == Adaptive /\ (step > Window \/ MWarmupRule)
 \* environment restriction: the sum the rule would divide by is 0 or a power of two
+SumOk(sq) == LET sm == SeqSum(sq) IN (sm = 0 \/ IsPow2(sm)) /\ IsPow2(Len(sq))
 WindowOk(d) == RuleApplies =>
-                 LET sm == SeqSum(WinSlice(Append(dpsi, d))) IN
-                   /\ sm = 0 \/ IsPow2(sm)
-                   /\ IsPow2(Len(WinSlice(Append(dpsi, d))))
+                 /\ SumOk(WinSlice(Append(dpsi, d)))                       \* what the mechanism will average
+                 /\ (Len(dstep) + 1 >= Window => SumOk(LastN(Append(dstep, d), Window)))   \* what the documented rule averages
 AnswerCtl == /\ pc = "euler" /\ pc' = (IF Screening THEN "induced" ELSE "finish")
              /\ UNCHANGED <<cfg, step, s, retries, nref, why, conv, prevconv, kcalls>>
 AnswerNum(d) == /\ WindowOk(d) /\ delta' = d /\ adt' = dt
                 /\ dt' = IF MMulFirst THEN ExactDiv(dt, MulDen) ELSE dt
                 /\ hist' = Append(hist, [t |-> "A", d |-> d, k |-> Zero])
-                /\ UNCHANGED <<tent, dpsi, Aind, vel, knew, linkA>>
+                /\ dpsi' = IF MEntryPerIteration /\ Adaptive THEN Trim(Append(dpsi, d)) ELSE dpsi
+                /\ UNCHANGED <<tent, dstep, Aind, vel, knew, linkA>>
 Answer(d) == AnswerCtl /\ AnswerNum(d)
 
 (* Induced: kernel evaluation an, then
@@ -217,7 +221,7 @@ InducedCtl(c) == /\ pc = "induced" /\ pc' = "test" /\ s' = s + 1 /\ kcalls' = kc
 InducedNum(an) == LET v2 == PolyakV(an) IN
                   /\ knew' = an /\ vel' = <<v2[1], v2[2]>> /\ Aind' = VAdd(Aind, <<v2[1], v2[2]>>)
                   /\ hist' = Append(hist, [t |-> "K", d |-> 0, k |-> an])
-                  /\ UNCHANGED <<dt, adt, tent, dpsi, delta, linkA>>
+                  /\ UNCHANGED <<dt, adt, tent, dpsi, dstep, delta, linkA>>
 NewIterate(an) == LET v2 == PolyakV(an) IN VAdd(Aind, <<v2[1], v2[2]>>)
 \* with a given kernel output (trace validation) ...
 InducedWith(an) == InducedCtl(ErrSmall(VSub(an, Aind), NewIterate(an))) /\ InducedNum(an)
@@ -238,9 +242,10 @@ Rule(dtv, sq) ==
 FinishCtl == /\ pc = "finish" /\ pc' = "begin" /\ step' = step + 1
              /\ UNCHANGED <<cfg, s, retries, nref, why, conv, prevconv, kcalls>>
 FinishNum == /\ IF Adaptive
-                  THEN /\ dpsi' = Trim(Append(dpsi, delta))
-                       /\ tent' = IF RuleApplies THEN Rule(dt, Append(dpsi, delta)) ELSE tent
-                  ELSE UNCHANGED <<dpsi, tent>>
+                  THEN /\ dpsi' = IF MEntryPerIteration THEN dpsi ELSE Trim(Append(dpsi, delta))
+                       /\ dstep' = Trim(Append(dstep, delta))
+                       /\ tent' = IF RuleApplies THEN Rule(dt, IF MEntryPerIteration THEN dpsi ELSE Append(dpsi, delta)) ELSE tent
+                  ELSE UNCHANGED <<dpsi, dstep, tent>>
              /\ UNCHANGED <<dt, adt, delta, Aind, vel, knew, linkA, hist>>
 Finish == FinishCtl /\ FinishNum
 
@@ -284,7 +289,7 @@ DocRuleHolds(t2, dtv, sq) ==
           ELSE 2 * t2 = Min(dtv + 2^xe, 2 * top)
 TentativeFollowsWindowRule ==
   [][(pc = "finish" /\ pc' = "begin") =>
-        IF Adaptive /\ step > Window THEN DocRuleHolds(tent', dt, dpsi') ELSE tent' = tent]_vars
+        IF Adaptive /\ step > Window THEN DocRuleHolds(tent', dt, dstep') ELSE tent' = tent]_vars
 TentativeChangesOnlyAtFinish == [][(tent' # tent) => pc = "finish"]_vars
 
 (* C13 *)
@@ -305,5 +310,5 @@ VelocityRestartsEachStep == [][(pc = "begin" /\ pc' = "test") => vel' = Zero]_va
 
 TypeOK == /\ pc \in {"begin", "test", "links", "euler", "induced", "finish", "raised", "dead"}   \* "dead": trace module, after the raise was observed
           /\ why \in {"none", "euler", "screening"} /\ (pc \in {"raised", "dead"} <=> why # "none")
-          /\ step \in 0..MaxSteps /\ retries >= 0 /\ s >= 0 /\ Len(dpsi) <= Window + 1
+          /\ step \in 0..MaxSteps /\ retries >= 0 /\ s >= 0 /\ Len(dpsi) <= Window + 1 /\ Len(dstep) <= Window + 1
 =============================================================================
